@@ -181,6 +181,71 @@ func Guards(b *ssa.BasicBlock) []Guard {
 // that predecessor — and the condition of the branch from it, if any — hold as well. (This is
 // what makes `x, err := helper(); if err != nil { return } …` after an expanded helper as
 // informative as the helper's own early returns were.)
+// ThreadGuards applies the merge threading of Guards to a guard list computed elsewhere.
+func ThreadGuards(gs []Guard) []Guard { return threadGuards(gs, 0) }
+
+// SelectedEdge: v is a phi, and one of the known conditions gs fixes — through a phi of the same block — the
+// edge by which that block was entered: the value v has on that edge (v itself otherwise).
+func SelectedEdge(v ssa.Value, gs []Guard) ssa.Value {
+	phi, ok := v.(*ssa.Phi)
+	if !ok {
+		return v
+	}
+	for _, g := range gs {
+		q, excluded := guardPhi(g, 0)
+		if q == nil || q.Block() != phi.Block() {
+			continue
+		}
+		k, n := -1, 0
+		for j, e := range q.Edges {
+			if !excluded(e, q.Block().Preds[j]) {
+				k = j
+				n++
+			}
+		}
+		if n == 1 {
+			return phi.Edges[k]
+		}
+	}
+	return v
+}
+
+// guardPhi: the phi a guard constrains and the predicate telling which incoming values the guard rules out.
+func guardPhi(g Guard, depth int) (*ssa.Phi, func(e ssa.Value, pred *ssa.BasicBlock) bool) {
+	if ph, ok := g.Cond.(*ssa.Phi); ok {
+		want := g.Pos
+		return ph, func(e ssa.Value, _ *ssa.BasicBlock) bool {
+			c, ok := e.(*ssa.Const)
+			return ok && c.Value != nil && c.Value.Kind() == constant.Bool && constant.BoolVal(c.Value) != want
+		}
+	}
+	rel, ok := AsRel(g)
+	if !ok || (rel.Op != token.EQL && rel.Op != token.NEQ) {
+		return nil, nil
+	}
+	x, y := rel.X, rel.Y
+	if _, isC := x.(*ssa.Const); isC {
+		x, y = y, x
+	}
+	ph, isPhi := x.(*ssa.Phi)
+	c, isC := y.(*ssa.Const)
+	if !isPhi || !isC {
+		return nil, nil
+	}
+	eq := rel.Op == token.EQL
+	m0 := ph.Block()
+	return ph, func(e ssa.Value, pred *ssa.BasicBlock) bool {
+		if ec, ok := e.(*ssa.Const); ok {
+			same := (ec.Value == nil) == (c.Value == nil) && (ec.Value == nil || constant.Compare(ec.Value, token.EQL, c.Value))
+			return same != eq
+		}
+		if c.Value == nil && eq {
+			return definitelyNonNil(e, pred, m0, depth)
+		}
+		return false
+	}
+}
+
 func threadGuards(gs []Guard, depth int) []Guard {
 	if depth > 3 {
 		return gs
